@@ -131,13 +131,14 @@ class WirePeer(DumbPeer):
         return self.send(rc.Msg(rc.ERROR, self.next_serial(), f, sig, body, little=little))
 
     def signal(self, path, iface, member, sig='', body=(), sender=':1.50', dest=None,
-               little=True):
+               little=True, serial=None):
         f = {rc.F_PATH: path, rc.F_INTERFACE: iface, rc.F_MEMBER: member}
         if sender:
             f[rc.F_SENDER] = sender
         if dest:
             f[rc.F_DESTINATION] = dest
-        return self.send(rc.Msg(rc.SIGNAL, self.next_serial(), f, sig, body, little=little))
+        return self.send(rc.Msg(rc.SIGNAL, serial if serial is not None else self.next_serial(), f, sig,
+                                body, little=little))
 
     def call(self, path, member, iface=None, sig='', body=(), sender=':1.50', dest=None,
              flags=0, little=True, serial=None):
